@@ -37,9 +37,11 @@ type Watcher struct {
 	// Atomics must come first per sync/atomic.
 	watching *uint32
 
-	// Track Change subscribers.
-	mu sync.RWMutex
-	m  changeMap
+	// Track Change subscribers. done is set once Watch has returned and the
+	// registered channels have been closed.
+	mu   sync.RWMutex
+	m    changeMap
+	done bool
 
 	// Swappable watch hook for testing. notify notifies subscribers that the
 	// input changes have occurred.
@@ -70,6 +72,13 @@ func (w *Watcher) Subscribe(iface string, changes Change) <-chan Change {
 	defer w.mu.Unlock()
 
 	changeC := make(chan Change, 8)
+	if w.done {
+		// Watch has already returned: nothing will ever be sent on or close
+		// this channel, so hand it out closed rather than registering it.
+		close(changeC)
+		return changeC
+	}
+
 	if _, ok := w.m[iface]; !ok {
 		w.m[iface] = make(map[Change][]chan<- Change)
 	}
@@ -99,7 +108,8 @@ func (w *Watcher) Watch(ctx context.Context) error {
 		defer w.mu.Unlock()
 
 		// All done, close the registered channels so those listening on them
-		// can also clean up.
+		// can also clean up. Later subscribers receive a closed channel.
+		w.done = true
 		for _, v := range w.m {
 			for _, vv := range v {
 				for _, ch := range vv {
